@@ -158,7 +158,7 @@ RULES.append(("C02.h", "await inventory: only futures whose completion rule is c
 
 def rule_mustpass(ctx):
     from . import mustpass
-    mustpass.check(ctx, ['output-send-broadcasts', 'send-completes-after-wait'])
+    mustpass.check(ctx, ['output-send-broadcasts', 'send-completes-after-wait', 'senders-create-channel-send', 'senders-await-channel-send', 'output-broadcast-polls', 'source-broadcast-polls'])
 
 
 RULES.append(("C02.i", "must-pass-through: no path around the effects this property rests on (added fast paths / early returns)", rule_mustpass))
